@@ -572,13 +572,17 @@ func (e *VerifEtcd) Reconnect() ([]string, error) {
 	return append(ranges, more...), err
 }
 
+// reloadOnly runs the reconnect reload without ending the streams first (demonstration
+// of the reload/watch lock-up only; see TestVerifC13ObserveReloadDeadlock).
+func (e *VerifEtcd) reloadOnly() { internal.VerifReload(e.Endpoints()) }
+
 // ------------------------------------------------------------------ client side
 
 type verifClient struct{ e *VerifEtcd }
 
 func (c *verifClient) ActiveConnection() *grpc.ClientConn { return verifConn }
-func (c *verifClient) Close() error                        { return nil }
-func (c *verifClient) Ctx() context.Context                { return c.e.ctx }
+func (c *verifClient) Close() error                       { return nil }
+func (c *verifClient) Ctx() context.Context               { return c.e.ctx }
 
 func (c *verifClient) Get(_ context.Context, key string, opts ...clientv3.OpOption) (*clientv3.GetResponse, error) {
 	op := clientv3.OpGet(key, opts...)
